@@ -263,10 +263,73 @@ func storageFamily(a *Args) error {
 	var conc []J
 	for r := 0; r < rounds && (len(behs) > 1 || concOnly); r++ {
 		conc = append(conc, concurrentSets(a.Seed, r))
+		if r%4 == 0 {
+			conc = append(conc, listingWhileDeleting(a.Seed, r))
+		}
 	}
 	tr.Block(conc)
 	fmt.Printf("storage: %d histories replayed on real files, %d rounds of concurrent writers, %d trace lines\n", len(behs), len(conc), tr.n)
 	return tr.Close()
+}
+
+// listingWhileDeleting: one goroutine saves and deletes entities over and over, another one lists; every listing succeeds and
+// contains the entity that is never touched
+func listingWhileDeleting(seed int64, r int) J {
+	dir := mkTempDir("hcv-list")
+	defer os.RemoveAll(dir)
+	rng := rngFor(seed, 7500000+r)
+	st, err := util.NewFileStorage(dir)
+	if err != nil {
+		return J{"ev": "conc", "case": 3000000, "i": r, "op": "ListingWhileDeleting", "writers": 0, "errs": 1, "final": "other"}
+	}
+	database := db.NewDatabaseWithStorage(st)
+	stable := db.NewEntity("stable", []byte{1, 2, 3}, nil)
+	database.SaveEntity(stable)
+	stop := make(chan struct{})
+	var wg sync.WaitGroup
+	wg.Add(1)
+	go func() {
+		defer wg.Done()
+		names := make([]string, 12)
+		for i := range names {
+			names[i] = fmt.Sprintf("churn-%d-%d", r, i)
+		}
+		for k := 0; ; k++ {
+			select {
+			case <-stop:
+				return
+			default:
+			}
+			e := db.NewEntity(names[k%len(names)], []byte{byte(k)}, nil)
+			database.SaveEntity(e)
+			database.DeleteEntity(e)
+		}
+	}()
+	var nerr, missing int64
+	n := 300 + rng.Intn(200)
+	for i := 0; i < n; i++ {
+		es, err := database.Entities()
+		if err != nil {
+			nerr++
+			continue
+		}
+		found := false
+		for _, e := range es {
+			if e.Name == "stable" {
+				found = true
+			}
+		}
+		if !found {
+			missing++
+		}
+	}
+	close(stop)
+	wg.Wait()
+	final := "one"
+	if missing > 0 {
+		final = "other"
+	}
+	return J{"ev": "conc", "case": 3000000, "i": r, "op": "ListingWhileDeleting", "writers": 2, "errs": nerr, "final": final}
 }
 
 func concurrentSets(seed int64, r int) J {
